@@ -668,6 +668,12 @@ def rotation(case):
     """one tensor x every rotation of the menu: transform == tensor rotation, identity, inverse, strain energy, V/R/H moduli."""
     kind, i = case['tensor']
     ec, C0, grp = build(kind, i)
+    k = case.get('scale', 1.0)
+    if k != 1.0:
+        # the same tensor held as small (large) numbers, as under working units where a pressure unit is large (small):
+        # every clean-up threshold of the class is documented as relative to the largest constant
+        ec, C0 = EC(Cij=k * np.asarray(ec.Cij)), k * C0
+        chk.note('rotations-of-rescaled-tensors', 1)
     cmax = np.abs(C0).max()
     fails = []
     mod0 = moduli_from_full(C0)
@@ -949,6 +955,9 @@ def gen():
                 yield 'isotropic', {'pair': p, 'lam': a, 'mu': b}
     for t in tensors:
         yield 'rotation', {'tensor': t}
+        if t[0] == 'general' or THOROUGH or t[1] in CORE_SYSTEM:
+            yield 'rotation', {'tensor': t, 'scale': 1e-7}
+            yield 'rotation', {'tensor': t, 'scale': 1e9}
     for t in tensors:
         for s in range(len(NORMAL_SYSTEMS)):
             if t[0] == 'general' or THOROUGH:
